@@ -215,6 +215,11 @@ def gen_case(rng):
     for op in case['ops']:
         if op[0] == 'Schedule' and rng.random() < 0.7:
             op[2]['drt'] = rng.choice([30, 300])
+    if rng.random() < 0.3:
+        # a server that an operator froze (nothing marked for unscheduling) and that then dies: it is down like any other
+        i = rng.choice([srv['id'] for srv in case['servers']])
+        case['ops'] += [['ServerState', i, 'frozen', []], ['Tick', 2], ['MasterCycle'], ['PresenceDown', i], ['Tick', 2],
+                        ['MasterCycle'], ['Tick', 400], ['MasterCycle']]
     return case
 
 
@@ -242,6 +247,7 @@ def stage(r, seed, n):
     pairs = []
     meta = []
     skipped = 0
+    all_sigs = set()
     for _ in range(n):
         case = gen_case(rng)
         try:
@@ -256,6 +262,7 @@ def stage(r, seed, n):
             if sig in seen_sig:
                 continue
             seen_sig.add(sig)
+            all_sigs.add(sig)
             tot += 1
             r.violation(sig, what, {'engine': 'E-master-c08', 'case': case})
         downs += sum(1 for op in case['ops'] if op[0] == 'PresenceDown')
@@ -290,6 +297,26 @@ def stage(r, seed, n):
                                                 timeout=300, tag='cases_c08m')
     if err:
         r.broken_obligation('correspondence', 'C08 master stage: the model could not be evaluated', err)
+    known_sigs = {e.get('signature') for e in core.known_findings('C08')}
+    if mism and not (all_sigs - known_sigs):
+        # the tie is broken and no history of this run shows the statement failing: search further histories with the
+        # oracle alone (the failing-input search of the decision protocol)
+        rng2 = random.Random(seed + 1313)
+        for _ in range(600):
+            case = gen_case(rng2)
+            try:
+                tr, _res = run_master_history(case)
+            except Exception:   # noqa
+                continue
+            if tr.hits:
+                seen_sig = set()
+                for sig, what in tr.hits:
+                    if sig not in seen_sig:
+                        seen_sig.add(sig)
+                        tot += 1
+                        r.violation(sig, what, {'engine': 'E-master-c08', 'case': case})
+                if seen_sig - known_sigs:
+                    break
     if mism:
         import json
         j = min(mism, key=lambda k: len(pairs[k][0]))
